@@ -1,7 +1,366 @@
-import RbdlProofs.Lemmas.Rot
-/- C20 — property theorems (being filled in) -/
+import RbdlProofs.Lemmas.L20
+import RbdlProofs.Lemmas.L20Ex
+/-
+  C20 — distinct model / constraint-set objects share no hidden mutable state: routines may run
+  on different instances concurrently or interleaved, each returns the results of running alone.
+
+  The machine is `Rbdl/Isolation.lean`: instances `Nat → Inst`, process-wide globals `Glob`,
+  `step op : Inst → Glob → Inst × Glob × Out`.  What is *assumed* about the compiled library is a
+  frame condition on `step` (checked outside Lean, on the symbol tables of the compiled objects):
+  `GlobPreserved` (no routine writes a global) and `GlobIrrelevant` (no routine reads one), or the
+  weaker `GlobConfined` (the part of the globals that is read is never written).  What is *proved*
+  is that these imply the property for all schedules, at call granularity and below it.
+-/
 namespace Rbdl.C20
-open Lean.Grind Rbdl
-variable {α : Type} [CommRing α]
-theorem placeholder_rot_one : (M3.one : M3 α).IsRot := M3.isRot_one
+open Rbdl Rbdl.Isolation Rbdl.L20
+
+section Generic
+variable {Inst Glob Op Out : Type}
+
+/-! ## call granularity -/
+
+/-- (general form) If the part `view g` of the globals that routines read is never written, then in
+    every schedule, for every instance `i`, the final state of `i` and the outputs returned to the
+    callers of `i` are those of running the calls of `i` alone from the same initial state; the
+    part of the globals that is read ends unchanged. -/
+theorem interleaving_independent_confined {V : Type} {view : Glob → V}
+    {step : Op → Inst → Glob → Inst × Glob × Out} (hc : GlobConfinedBy view step)
+    (s : Sys Inst Glob) (sched : List (Nat × Op)) (i : Nat) :
+    (run step s sched).1.inst i = (solo step s i sched).1 ∧
+    outputsOf i (run step s sched).2 = (solo step s i sched).2.2 ∧
+    view (run step s sched).1.glob = view s.glob :=
+  run_eq_solo hc sched s i
+
+/-- Routines neither write nor read a global: for every schedule and every instance `i`, the final
+    state of `i` and the list of outputs of the events of `i` equal those of the solo run of
+    `project i sched`. -/
+theorem interleaving_independent {step : Op → Inst → Glob → Inst × Glob × Out}
+    (_hP : GlobPreserved step) (hI : GlobIrrelevant step)
+    (s : Sys Inst Glob) (sched : List (Nat × Op)) (i : Nat) :
+    (run step s sched).1.inst i = (solo step s i sched).1 ∧
+    outputsOf i (run step s sched).2 = (solo step s i sched).2.2 := by
+  obtain ⟨h1, h2, _⟩ := run_eq_solo (confined_of_irrelevant hI) sched s i
+  exact ⟨h1, h2⟩
+
+/-- ... and the solo run does not depend on the values the globals have in the process:
+    the results are those of the instance alone in a process with any globals `g'`. -/
+theorem interleaving_independent_any_globals {step : Op → Inst → Glob → Inst × Glob × Out}
+    (hP : GlobPreserved step) (hI : GlobIrrelevant step)
+    (s : Sys Inst Glob) (sched : List (Nat × Op)) (i : Nat) (g' : Glob) :
+    (run step s sched).1.inst i = (soloRun step (s.inst i) g' (opsOf i sched)).1 ∧
+    outputsOf i (run step s sched).2 = (soloRun step (s.inst i) g' (opsOf i sched)).2.2 := by
+  obtain ⟨h1, h2⟩ := interleaving_independent hP hI s sched i
+  obtain ⟨k1, k2⟩ := soloRun_irrelevant hI (opsOf i sched) (s.inst i) s.glob g'
+  exact ⟨h1.trans k1, h2.trans k2⟩
+
+/-- Each frame condition is sufficient on its own: read-only globals ... -/
+theorem interleaving_independent_readonly {step : Op → Inst → Glob → Inst × Glob × Out}
+    (hP : GlobPreserved step) (s : Sys Inst Glob) (sched : List (Nat × Op)) (i : Nat) :
+    (run step s sched).1.inst i = (solo step s i sched).1 ∧
+    outputsOf i (run step s sched).2 = (solo step s i sched).2.2 := by
+  obtain ⟨h1, h2, _⟩ := run_eq_solo (confined_of_preserved hP) sched s i
+  exact ⟨h1, h2⟩
+
+/-- ... or write-only globals (a log stream). -/
+theorem interleaving_independent_writeonly {step : Op → Inst → Glob → Inst × Glob × Out}
+    (hI : GlobIrrelevant step) (s : Sys Inst Glob) (sched : List (Nat × Op)) (i : Nat) :
+    (run step s sched).1.inst i = (solo step s i sched).1 ∧
+    outputsOf i (run step s sched).2 = (solo step s i sched).2.2 := by
+  obtain ⟨h1, h2, _⟩ := run_eq_solo (confined_of_irrelevant hI) sched s i
+  exact ⟨h1, h2⟩
+
+/-- the globals after any schedule are the initial ones -/
+theorem glob_unchanged {step : Op → Inst → Glob → Inst × Glob × Out} (hP : GlobPreserved step)
+    (s : Sys Inst Glob) (sched : List (Nat × Op)) : (run step s sched).1.glob = s.glob :=
+  run_glob_preserved hP sched s
+
+/-- (general form) Two schedules with the same per-instance projections give every instance the
+    same final state and the same outputs. -/
+theorem outputs_permutation_invariant_confined {step : Op → Inst → Glob → Inst × Glob × Out}
+    (hc : GlobConfined step) (s : Sys Inst Glob) (sched sched' : List (Nat × Op))
+    (h : ∀ i, project i sched = project i sched') (i : Nat) :
+    (run step s sched).1.inst i = (run step s sched').1.inst i ∧
+    outputsOf i (run step s sched).2 = outputsOf i (run step s sched').2 := by
+  obtain ⟨V, view, hv⟩ := hc
+  obtain ⟨a1, a2, _⟩ := run_eq_solo hv sched s i
+  obtain ⟨b1, b2, _⟩ := run_eq_solo hv sched' s i
+  have e : solo step s i sched = solo step s i sched' := by
+    simp only [solo, opsOf_congr (h i)]
+  rw [a1, a2, b1, b2, e]
+  exact ⟨rfl, rfl⟩
+
+/-- Two schedules with the same per-instance projections end in the same system state (all
+    instances and the globals) and give every instance the same outputs. -/
+theorem outputs_permutation_invariant {step : Op → Inst → Glob → Inst × Glob × Out}
+    (hP : GlobPreserved step) (hI : GlobIrrelevant step)
+    (s : Sys Inst Glob) (sched sched' : List (Nat × Op))
+    (h : ∀ i, project i sched = project i sched') :
+    (run step s sched).1 = (run step s sched').1 ∧
+    ∀ i, outputsOf i (run step s sched).2 = outputsOf i (run step s sched').2 := by
+  have hc : GlobConfined step := ⟨Unit, fun _ => (), confined_of_irrelevant hI⟩
+  refine ⟨?_, fun i => (outputs_permutation_invariant_confined hc s sched sched' h i).2⟩
+  have hinst : (run step s sched).1.inst = (run step s sched').1.inst :=
+    funext fun i => (outputs_permutation_invariant_confined hc s sched sched' h i).1
+  have hglob : (run step s sched).1.glob = (run step s sched').1.glob := by
+    rw [glob_unchanged hP, glob_unchanged hP]
+  cases hr : (run step s sched).1 with
+  | mk a b =>
+    cases hr' : (run step s sched').1 with
+    | mk a' b' =>
+      rw [hr, hr'] at hinst hglob
+      cases hinst; cases hglob; rfl
+
+/-! ## below call granularity -/
+
+/-- For every interleaving of the micro-steps of the programs `prog i` that keeps the micro-steps
+    of each instance in program order, every instance ends in the state, and its callers see the
+    outputs, of its program run alone with atomic calls. -/
+theorem micro_interleaving_independent (micro : Op → List (Inst → Inst))
+    (readOut : Op → Inst → Out) (prog : Nat → List Op) (ms : List (Nat × MEv Inst Op))
+    (h : IsInterleaving micro prog ms) (s : Nat → Inst) (i : Nat) :
+    (mrun readOut s ms).1 i = (soloRun (stepOfMicro micro readOut) (s i) () (prog i)).1 ∧
+    outputsOf i (mrun readOut s ms).2 =
+      (soloRun (stepOfMicro micro readOut) (s i) () (prog i)).2.2 := by
+  obtain ⟨h1, h2⟩ := mrun_eq_msolo readOut ms s i
+  rw [h1, h2, h i, msolo_expand]
+  exact ⟨rfl, rfl⟩
+
+/-- the atomic calls made of micro-steps satisfy both frame conditions, for any globals -/
+theorem stepOfMicro_frame (micro : Op → List (Inst → Inst)) (readOut : Op → Inst → Out) :
+    GlobPreserved (stepOfMicro (Glob := Glob) micro readOut) ∧
+    GlobIrrelevant (stepOfMicro (Glob := Glob) micro readOut) :=
+  ⟨fun _ _ _ => rfl, fun _ _ _ _ => ⟨rfl, rfl⟩⟩
+
+/-- Linearisation: every micro-step interleaving gives each instance what any call-granularity
+    schedule with the same per-instance programs gives it. -/
+theorem micro_eq_atomic (micro : Op → List (Inst → Inst))
+    (readOut : Op → Inst → Out) (prog : Nat → List Op) (ms : List (Nat × MEv Inst Op))
+    (h : IsInterleaving micro prog ms) (s : Nat → Inst)
+    (sched : List (Nat × Op)) (hs : ∀ i, opsOf i sched = prog i) (i : Nat) :
+    (mrun readOut s ms).1 i = (run (stepOfMicro micro readOut) ⟨s, ()⟩ sched).1.inst i ∧
+    outputsOf i (mrun readOut s ms).2 =
+      outputsOf i (run (stepOfMicro micro readOut) ⟨s, ()⟩ sched).2 := by
+  obtain ⟨h1, h2⟩ := micro_interleaving_independent micro readOut prog ms h s i
+  obtain ⟨k1, k2⟩ := interleaving_independent (stepOfMicro_frame micro readOut).1
+    (stepOfMicro_frame micro readOut).2 ⟨s, ()⟩ sched i
+  simp only [solo, hs i] at k1 k2
+  rw [h1, h2, k1, k2]
+  exact ⟨rfl, rfl⟩
+
+end Generic
+
+/-! ## the modelled routines -/
+
+/-- The routines of the model next to any block of globals satisfy both frame conditions
+    (they are functions of the instance and the arguments). -/
+theorem rstepG_frame (Glob : Type) :
+    GlobPreserved (rstepG (Glob := Glob)) ∧ GlobIrrelevant (rstepG (Glob := Glob)) :=
+  ⟨fun _ _ _ => rfl, fun _ _ _ _ => ⟨rfl, rfl⟩⟩
+
+theorem rstep_frame : GlobPreserved rstep ∧ GlobIrrelevant rstep := rstepG_frame Unit
+
+/-- hence: any schedule of modelled routines on any number of instances gives every instance the
+    results of running alone -/
+theorem rstep_isolated (s : Sys RInst Unit) (sched : List (Nat × ROp)) (i : Nat) :
+    (run rstep s sched).1.inst i = (solo rstep s i sched).1 ∧
+    outputsOf i (run rstep s sched).2 = (solo rstep s i sched).2.2 :=
+  interleaving_independent rstep_frame.1 rstep_frame.2 s sched i
+
+/-- routines that write the process-wide log: the log is not preserved, but it is never read -/
+theorem lstep_irrelevant : GlobIrrelevant lstep := fun _ _ _ _ => ⟨rfl, rfl⟩
+
+theorem lstep_not_preserved : ¬ GlobPreserved lstep := by
+  intro h
+  have := h (.addContact 0 ⟨0, 0, 0⟩ ⟨0, 0, 0⟩ 0) L20.Ex.x2 []
+  simp [lstep] at this
+
+theorem lstep_isolated (s : Sys RInst (List String)) (sched : List (Nat × ROp)) (i : Nat) :
+    (run lstep s sched).1.inst i = (solo lstep s i sched).1 ∧
+    outputsOf i (run lstep s sched).2 = (solo lstep s i sched).2.2 :=
+  interleaving_independent_writeonly lstep_irrelevant s sched i
+
+/-- Micro-step interleavings of the modelled routines (`InverseDynamics` split into binding `Tau`,
+    forward passes, backward pass): every instance gets the model, workspace, constraint set and
+    outputs of its program run alone with the atomic routines `rstep`. -/
+theorem rmicro_interleaving_independent (prog : Nat → List ROp)
+    (ms : List (Nat × MEv RInstM ROp)) (h : IsInterleaving rmicro prog ms)
+    (s : Nat → RInstM) (i : Nat) :
+    ((mrun rreadOut s ms).1 i).1 = (soloRun rstep (s i).1 () (prog i)).1 ∧
+    outputsOf i (mrun rreadOut s ms).2 = (soloRun rstep (s i).1 () (prog i)).2.2 := by
+  obtain ⟨h1, h2⟩ := micro_interleaving_independent rmicro rreadOut prog ms h s i
+  have sim := soloRun_sim (Glob' := Unit) (Prod.fst : RInstM → RInst)
+    (stepOfMicro rmicro rreadOut) rstep
+    (by
+      intro op x' g' g
+      obtain ⟨x, o⟩ := x'
+      simp only [stepOfMicro, rreadOut, rmicro_atomic]
+      exact ⟨rfl, rfl⟩)
+    rstep_frame.1 (prog i) (s i) () ()
+  rw [h1, h2]
+  exact sim
+
+/-! ### non-vacuity -/
+
+section Examples
+open L20.Ex
+
+/-- the interleaved schedule and the instance-after-instance schedule have the same projections -/
+theorem sched_project : ∀ i, project i sched = project i schedSeq := by
+  intro i
+  match i with
+  | 0 => rfl
+  | 1 => rfl
+  | 2 => rfl
+  | _ + 3 => rfl
+
+/-- the three-instance interleaved schedule, evaluated: the outputs seen by instance 2 (model
+    load, then `CompositeRigidBodyAlgorithm`, then `InverseDynamics` on the loaded model) -/
+example : (outputsOf 2 (run rstep s3 sched).2).map (ROut.obs 2) =
+    [[0, 0, 1], [111011 / 1296, -1319 / 216, -1319 / 216, 97 / 18],
+     [-6114313 / 90720, 80279 / 4200]] := by decide +kernel
+
+/-- evaluated: every instance sees in the interleaved schedule the outputs of its solo run -/
+example : (outputsOf 0 (run rstep s3 sched).2).map (ROut.obs 5) =
+    (solo rstep s3 0 sched).2.2.map (ROut.obs 5) := by decide +kernel
+example : (outputsOf 1 (run rstep s3 sched).2).map (ROut.obs 7) =
+    (solo rstep s3 1 sched).2.2.map (ROut.obs 7) := by decide +kernel
+example : (outputsOf 2 (run rstep s3 sched).2).map (ROut.obs 2) =
+    (solo rstep s3 2 sched).2.2.map (ROut.obs 2) := by decide +kernel
+
+/-- the outputs are not trivial and differ between instances -/
+example : (outputsOf 1 (run rstep s3 sched).2).map (ROut.obs 3) ≠
+    (outputsOf 0 (run rstep s3 sched).2).map (ROut.obs 3) := by decide +kernel
+
+/-- hypotheses of the theorems: the frame conditions hold for `rstep` (`rstep_frame`), and the
+    permutation theorem applies to `sched` / `schedSeq` -/
+example : (run rstep s3 sched).1 = (run rstep s3 schedSeq).1 :=
+  (outputs_permutation_invariant rstep_frame.1 rstep_frame.2 s3 sched schedSeq sched_project).1
+
+/-- with the log: the outputs agree although the final logs differ -/
+example : (run lstep ⟨inst3, []⟩ sched).1.glob ≠ (run lstep ⟨inst3, []⟩ schedSeq).1.glob := by
+  decide +kernel
+example : ∀ i, outputsOf i (run lstep ⟨inst3, []⟩ sched).2 =
+    outputsOf i (run lstep ⟨inst3, []⟩ schedSeq).2 := fun i =>
+  (outputs_permutation_invariant_confined ⟨Unit, fun _ => (), confined_of_irrelevant lstep_irrelevant⟩
+    ⟨inst3, []⟩ sched schedSeq sched_project i).2
+
+/-- `msched` is an interleaving of the three programs below call granularity -/
+theorem msched_interleaving : IsInterleaving rmicro prog msched := by
+  intro i
+  match i with
+  | 0 => rfl
+  | 1 => rfl
+  | 2 => rfl
+  | _ + 3 => rfl
+
+/-- it really preempts instance 0 inside `InverseDynamics` -/
+example : msched.map (·.1) = [0, 1, 0, 2, 1, 1, 0, 1, 2, 1, 0, 1] := by decide +kernel
+
+example : ((mrun rreadOut sM msched).1 1).1 = (soloRun rstep (sM 1).1 () (prog 1)).1 :=
+  (rmicro_interleaving_independent prog msched msched_interleaving sM 1).1
+
+/-- evaluated: the micro-step interleaving hands instance 1 the outputs of its solo run -/
+example : (outputsOf 1 (mrun rreadOut sM msched).2).map (ROut.obs 7) =
+    (soloRun rstep (sM 1).1 () (prog 1)).2.2.map (ROut.obs 7) := by decide +kernel
+
+/-- `micro_eq_atomic`: a call-granularity schedule with the same programs -/
+def progSched : List (Nat × ROp) :=
+  [ (1, .updateKinematics C04.Ex.st qd1 z),
+    (0, .inverseDynamics C02.Ex.st C02.Ex.qd C02.Ex.tau z none),
+    (2, .luaLoad fileA),
+    (1, .inverseDynamics C04.Ex.st qd1 qd1 z none) ]
+
+theorem progSched_ops : ∀ i, opsOf i progSched = prog i := by
+  intro i
+  match i with
+  | 0 => rfl
+  | 1 => rfl
+  | 2 => rfl
+  | _ + 3 => rfl
+
+example : ∀ i, outputsOf i (mrun rreadOut sM msched).2 =
+    outputsOf i (run (stepOfMicro rmicro rreadOut) ⟨sM, ()⟩ progSched).2 := fun i =>
+  (micro_eq_atomic rmicro rreadOut prog msched msched_interleaving sM progSched progSched_ops i).2
+
+/-! small machines over `Nat` for the single frame conditions -/
+
+/-- a routine that reads a global configuration value and never writes it: preserved, not
+    irrelevant -/
+def roStep : Nat → Nat → Nat → Nat × Nat × Nat := fun op x g => (x + op * g, g, x + g)
+
+example : GlobPreserved roStep ∧ ¬ GlobIrrelevant roStep :=
+  ⟨fun _ _ _ => rfl, fun h => absurd (h 1 0 0 1).1 (by decide)⟩
+
+/-- globals with a read-only part (a configuration value) and a write-only part (a log):
+    confined by the view on the first part, neither preserved nor irrelevant -/
+def cfgLogStep : Nat → Nat → Nat × List Nat → Nat × (Nat × List Nat) × Nat :=
+  fun op x g => (x + op * g.1, (g.1, g.2 ++ [op]), x + g.1)
+
+example : GlobConfinedBy (fun g : Nat × List Nat => g.1) cfgLogStep ∧
+    ¬ GlobPreserved cfgLogStep ∧ ¬ GlobIrrelevant cfgLogStep :=
+  ⟨⟨fun _ _ _ => rfl, fun op x g g' h => by
+      simp only [cfgLogStep]; simp only at h; rw [h]; exact ⟨rfl, rfl⟩⟩,
+   fun h => absurd (h 1 0 (0, [])) (by decide),
+   fun h => absurd (h 1 0 (0, []) (1, [])).1 (by decide)⟩
+
+end Examples
+
+/-! ## necessity: the Lua loader before the fix -/
+
+section Defect
+open L20.Ex
+
+/-- the two load orders have the same projections: each thread loads its own file once -/
+theorem load_project : ∀ i, project i loadAB = project i loadBA := by
+  intro i
+  match i with
+  | 0 => rfl
+  | 1 => rfl
+  | _ + 2 => rfl
+
+/-- Before the fix the loader satisfies neither frame condition ... -/
+theorem dstep_not_preserved : ¬ GlobPreserved dstep := by
+  intro h
+  have := congrArg List.length (h (.luaLoad fileA) x2 [])
+  revert this
+  decide +kernel
+
+theorem dstep_not_irrelevant : ¬ GlobIrrelevant dstep := by
+  intro h
+  have := congrArg ROut.idsD (h (.luaLoad fileB) x2 [] [("thigh", 2)]).2
+  revert this
+  decide +kernel
+
+/-- ... and the property fails: two schedules with equal projections, different outputs for
+    thread 1.  Loaded after file A, the frame `hand` of file B (parent `thigh`, not defined in
+    file B) is attached to body 2, the id of `thigh` in the *other* model; loaded first, to body 0. -/
+theorem loader_defect_counterexample :
+    (∀ i, project i loadAB = project i loadBA) ∧
+    (outputsOf 1 (run dstep sLoad loadAB).2).map ROut.idsD = [[0, 0, 1, 2]] ∧
+    (outputsOf 1 (run dstep sLoad loadBA).2).map ROut.idsD = [[0, 0, 1, 0]] ∧
+    (solo dstep sLoad 1 loadAB).2.2.map ROut.idsD = [[0, 0, 1, 0]] :=
+  ⟨load_project, by decide +kernel, by decide +kernel, by decide +kernel⟩
+
+/-- so the conclusions of `outputs_permutation_invariant` and `interleaving_independent` are false
+    for `dstep` -/
+theorem loader_defect_breaks_property :
+    ¬ (∀ (s : Sys RInst NameMap) (sched sched' : List (Nat × ROp)),
+        (∀ i, project i sched = project i sched') →
+        ∀ i, outputsOf i (run dstep s sched).2 = outputsOf i (run dstep s sched').2) := by
+  intro h
+  have := congrArg (List.map ROut.idsD) (h sLoad loadAB loadBA load_project 1)
+  rw [loader_defect_counterexample.2.1, loader_defect_counterexample.2.2.1] at this
+  revert this
+  decide
+
+/-- the globals are left changed, too -/
+example : (run dstep sLoad loadAB).1.glob ≠ sLoad.glob := by decide +kernel
+
+/-- with the map local to the call (the fixed tree) both orders give `[0, 0, 1, 0]` -/
+example : (outputsOf 1 (run rstep sLoadFixed loadAB).2).map ROut.idsD = [[0, 0, 1, 0]] ∧
+    (outputsOf 1 (run rstep sLoadFixed loadBA).2).map ROut.idsD = [[0, 0, 1, 0]] :=
+  ⟨by decide +kernel, by decide +kernel⟩
+
+end Defect
+
 end Rbdl.C20
